@@ -17,7 +17,7 @@ import json,sys,os
 dst,pid,t,d1,d2=sys.argv[1:6]
 p=os.path.join(dst,'meta.json')
 meta=json.load(open(p)) if os.path.exists(p) else {}
-meta.update({'property':pid,'tests_with_patch':t,'demo_exit_with_patch':int(d1),'demo_exit_without_patch':int(d2),
+meta.update({"property":pid[:3],'tests_with_patch':t,'demo_exit_with_patch':int(d1),'demo_exit_without_patch':int(d2),
  'verified_by':'tools/adopt_seed.sh in a scratch worktree of /repo HEAD (git apply; pytest; demo; git apply -R; demo)',
  'confirmed': ('300 passed' in t and int(d1)!=0 and int(d2)==0)})
 meta.setdefault('needs','see NOTES.md')
